@@ -39,6 +39,11 @@ VALS = {
         "b": {"v": sig("v"), "u": sig("u"), "c2": cat(sig("s1"), sig("s2")), "an2": ("anon", [("p", sig("v")), ("n", sig("u"))]), "rj": pref("j", "b"), "rk": pref("k", "b")},
     },
 }
+# two scalar ports of one instance that can be tied to the *same* object (reference, signal, no-connect), deeper histories
+VALS["inst2"] = {
+    "a": {"rk": pref("k", "a"), "rj": pref("j", "a"), "s1": sig("s1"), "nc1": nc("n1")},
+    "c": {"rk": pref("k", "a"), "rj": pref("j", "a"), "s1": sig("s1"), "s2": sig("s2")},
+}
 CONNECT_VERBS = ["call", "setattr", "connect"]
 
 
@@ -54,8 +59,12 @@ def base_design(kind):
         ("port", "a", 1, "none"), ("port", "b", 2, "none"),
         ("inst", "pa", ("ext", "P1", {"k": 1}), [("a", sig("a"))]), ("inst", "pb", ("ext", "P2", {"k": 2}), [("a", sig("b"))]),
     ]}
+    child3 = {"name": "Child3", "style": "class", "decls": [
+        ("port", "a", 1, "none"), ("port", "c", 1, "none"),
+        ("inst", "pa", ("ext", "P1", {"k": 1}), [("a", sig("a"))]), ("inst", "pc", ("ext", "P1", {"k": 2}), [("a", sig("c"))]),
+    ]}
     decls = []
-    for n, w in [("s1", 1), ("s2", 1), ("v", 2), ("u", 2), ("w", 4), ("ja", 1), ("jb", 2), ("da", 1), ("db", 2)]:
+    for n, w in [("s1", 1), ("s2", 1), ("v", 2), ("u", 2), ("w", 4), ("ja", 1), ("jb", 2), ("jc", 1), ("da", 1), ("db", 2), ("dc", 1)]:
         decls.append(("sig", n, w))
         decls.append(probe("p_" + n, n, w, 5))
     decls += [("inst", "q_b1_x", ("ext", "P1", {"k": 8}), [("a", bref("b1", "x"))]), ("inst", "q_b1_y", ("ext", "P2", {"k": 9}), [("a", bref("b1", "y"))])]
@@ -64,18 +73,20 @@ def base_design(kind):
     for bn in ("d0", "d1"):
         for m in ("p", "n"):
             decls.append(("inst", f"q_{bn}_{m}", ("ext", "P1", {"k": 6}), [("a", ("bref", bn, [m]))]))
-    cm = "Child2" if kind == "pair" else "Child"
+    cm = "Child2" if kind == "pair" else "Child3" if kind == "inst2" else "Child"
     jconns = [("a", sig("ja")), ("b", sig("jb"))] + ([("t", b("jt"))] if kind != "pair" else [])
+    if kind == "inst2":
+        jconns = [("a", sig("ja")), ("c", sig("jc"))]
     decls.append(("inst", "j", ("mod", cm), jconns))
     decls.append(("inst", "k", ("mod", cm), []))
-    if kind == "inst":
+    if kind in ("inst", "inst2"):
         decls.append(("inst", "i", ("mod", cm), []))
     elif kind == "array":
         decls.append(("array", "i", ("mod", cm), 2, []))
     else:
         decls.append(("pair", "i", ("mod", cm), []))
     top = {"name": "Top", "style": "proc", "decls": decls}
-    return {"bundles": BUND, "exts": exts, "modules": {"Child": child, "Child2": child2, "Top": top}, "top": "Top"}
+    return {"bundles": BUND, "exts": exts, "modules": {"Child": child, "Child2": child2, "Child3": child3, "Top": top}, "top": "Top"}
 
 
 def ops_for(kind, mapping):
@@ -119,14 +130,14 @@ def final_design(kind, mapping):
     d = base_design(kind)
     top = d["modules"]["Top"]
     decl = [x for x in top["decls"] if x[1] == "i"][0]
-    ports = ["a", "b"] + (["t"] if kind != "pair" else [])
+    ports = ["a", "c"] if kind == "inst2" else ["a", "b"] + (["t"] if kind != "pair" else [])
     conns = []
     for p in ports:
         if p in mapping:
             conns.append((p, VALS[kind][p][mapping[p]]))
     live = repr(conns)
     # canonical completion: connect what is neither connected nor referenced by a live connection
-    defaults = {"a": sig("da"), "b": sig("db"), "t": b("dt")}
+    defaults = {"a": sig("da"), "b": sig("db"), "t": b("dt"), "c": sig("dc")}
     for p in ports:
         if p not in mapping:
             conns.append((p, defaults[p]))
@@ -426,7 +437,7 @@ def features(kind, hist):
 
 
 def run(ctx):
-    plans = [("inst", 2), ("array", 2), ("pair", 2)] if ctx.quick else [("inst", 3), ("array", 2), ("pair", 3)]
+    plans = [("inst", 2), ("array", 2), ("pair", 2), ("inst2", 3)] if ctx.quick else [("inst", 3), ("array", 2), ("pair", 3), ("inst2", 4)]
     for kind, depth in plans:
         hs = histories(kind, depth, verbs_reduced=(depth >= 3))
         items = [(kind, hh) for hh in hs]
